@@ -273,9 +273,22 @@ class FastGroup:
 
     # frame positions are EtherCAT-payload relative; + ETH in the raw frame
     def writers(self):
-        """[(cmd position, wkc position, command value, expected wkc)]"""
-        return [(start, stop - 2, cmd.value, self.packet.counters[stop - 2])
-                for start, stop, cmd in self.packet.on_the_fly]
+        """[(cmd position, wkc position, command value, expected wkc)] of the
+        write datagrams, found by parsing the assembled (non-sterile) frame
+        independently - NOT from SterilePacket's own on_the_fly list, so that
+        bookkeeping errors there (stale or foreign entries) are visible"""
+        from . import ecparse
+        try:
+            _, dgs = ecparse.parse(self.assembled)
+        except ecparse.ParseError:
+            # a group without any datagram: only the identification datagram
+            return []
+        out = []
+        for d in dgs[1:]:
+            if d.cmd in (2, 3, 5, 6, 8, 9, 11, 12):
+                out.append((d.hdr_pos, d.wkc_pos, d.cmd,
+                            self.packet.counters[d.wkc_pos]))
+        return out
 
     def var_off(self, device, name):
         return device.__dict__[name]
